@@ -122,6 +122,8 @@ THEOREM_FUNCS = {
     "C06_parse_rtcm3_from_source": [_RD[4], _RD[0]], "C06_do_error_from_source": [_RD[5]],
     "C06_read_from_source": _RD,
     "C10_read_from_source_over_socket": _RD,
+    "C10_recv_from_source": ["socket_wrapper.py:SocketWrapper._recv"],
+    "C10_sock_read_from_source": ["socket_wrapper.py:SocketWrapper._recv", "socket_wrapper.py:SocketWrapper.read"],
 }
 
 
